@@ -27,7 +27,7 @@ def main():
         if os.path.exists(spec_path):
             spec = json.load(open(spec_path))
             m = spec.get("manifest")
-            if m and m.get("claimed", True):
+            if m and m.get("claimed", True) and m.get("ready", True):
                 has_thorough = any(g.get("tier") == "thorough" for g in spec["groups"])
                 c = {
                     "property_id": pid,
@@ -45,6 +45,9 @@ def main():
                 }
                 c["thorough_cmd"] = "./check %s --tier thorough" % pid
                 checks.append(c)
+                continue
+            elif m and m.get("claimed", True) and not m.get("ready", True):
+                na.append({"property_id": pid, "reason": "check under construction in this revision of /verif (harnesses written, not yet passing within budget on the unchanged tree); not claimed until it does"})
                 continue
             elif m and not m.get("claimed", True):
                 na.append({"property_id": pid, "reason": m["reason"]})
